@@ -34,6 +34,9 @@ type ConcClone struct {
 	HeadEvery int `json:"head_every,omitempty"`
 	// Yield: call runtime.Gosched between reads.
 	Yield bool `json:"yield,omitempty"`
+	// CancelAt: k > 0: this consumer's own context reports cancellation from its k-th Err call on
+	// (k odd: between the wrapper's look at the context and the underlying read it drives).
+	CancelAt int `json:"cancel_at,omitempty"`
 }
 
 type ConcCase struct {
@@ -74,6 +77,9 @@ func genConc(t *rapid.T) ConcCase {
 			cl.HeadEvery = rapid.IntRange(1, 3).Draw(t, "headEvery")
 		}
 		cl.Yield = rapid.Bool().Draw(t, "yield")
+		if i > 0 && rapid.IntRange(0, 2).Draw(t, "cancelled") == 0 {
+			cl.CancelAt = rapid.IntRange(1, 12).Draw(t, "cancelAt")
+		}
 		c.Clones = append(c.Clones, cl)
 	}
 	return c
@@ -104,6 +110,10 @@ func checkConc(env *fw.Env, c ConcCase) *fw.Failure {
 			defer wg.Done()
 			cl := c.Clones[i]
 			r := &res[i]
+			ctx := ctx
+			if cl.CancelAt > 0 {
+				ctx = &flipCtx{Context: context.Background(), at: cl.CancelAt}
+			}
 			<-start
 			it, err := openShared(wrapped, c.Reader)
 			if err != nil || it == nil {
@@ -118,6 +128,10 @@ func checkConc(env *fw.Env, c ConcCase) *fw.Failure {
 				if cl.HeadEvery > 0 && n%cl.HeadEvery == 0 {
 					for k := 0; k < 2; k++ {
 						h, err := it.Head(ctx)
+						if cl.CancelAt > 0 && errors.Is(err, context.Canceled) {
+							r.endErr = err
+							return
+						}
 						hs := renderTuple(h)
 						if k == 1 && (!sameErr(err, headErr) || (err == nil && hs != *headVal)) {
 							r.problem = fmt.Sprintf("read %d: two consecutive Head calls disagree: (%v,%v) then (%s,%v)", n, deref(headVal), headErr, hs, err)
@@ -130,6 +144,10 @@ func checkConc(env *fw.Env, c ConcCase) *fw.Failure {
 					runtime.Gosched()
 				}
 				t, err := it.Next(ctx)
+				if cl.CancelAt > 0 && errors.Is(err, context.Canceled) {
+					r.endErr = err
+					return
+				}
 				if headed && (!sameErr(err, headErr) || (err == nil && renderTuple(t) != *headVal)) {
 					r.problem = fmt.Sprintf("read %d: Head returned (%v,%v) but the following Next returned (%s,%v)", n, deref(headVal), headErr, renderTuple(t), err)
 					return
@@ -152,6 +170,7 @@ func checkConc(env *fw.Env, c ConcCase) *fw.Failure {
 	}
 
 	stops := map[int]bool{}
+	cancelled := false
 	for i, r := range res {
 		cl := c.Clones[i]
 		if r.problem != "" {
@@ -162,6 +181,14 @@ func checkConc(env *fw.Env, c ConcCase) *fw.Failure {
 		full := true
 		if cl.StopAfter >= 0 && cl.StopAfter <= n {
 			n, full = cl.StopAfter, false
+		}
+		if cl.CancelAt > 0 && errors.Is(r.endErr, context.Canceled) {
+			// a consumer whose own request was cancelled: what it saw before is a prefix; nothing else is asked of it
+			if len(r.seen) > len(want.items) || strings.Join(r.seen, ",") != strings.Join(want.items[:len(r.seen)], ",") {
+				return fw.Failf("C23/shared-concurrent-wrong-sequence", "cancelled clone %d (%+v) saw %v, not a prefix of %v", i, cl, r.seen, want.items)
+			}
+			cancelled = true
+			continue
 		}
 		if strings.Join(r.seen, ",") != strings.Join(want.items[:n], ",") {
 			return fw.Failf("C23/shared-concurrent-wrong-sequence", "clone %d (%+v) saw %d items %v, expected %d items %v", i, cl, len(r.seen), r.seen, n, want.items[:n])
@@ -201,6 +228,9 @@ func checkConc(env *fw.Env, c ConcCase) *fw.Failure {
 	}
 	if heads {
 		classes = append(classes, "concurrent:head+next")
+	}
+	if cancelled {
+		classes = append(classes, "concurrent:a-consumer-cancelled-midway")
 	}
 	diff := len(stops) >= 2
 	if diff {
